@@ -1,0 +1,48 @@
+//go:build verif
+
+package eio
+
+import (
+	"github.com/karagenc/socket.io-go/engine.io/parser"
+)
+
+// Exports for the verification harness in /verif. Compiled only with the
+// `verif` build tag; nothing here changes library behaviour.
+
+// VerifResetBase64IDSeq resets the process-global id sequence so that a
+// simulated run is a pure function of its seed.
+func VerifResetBase64IDSeq() {
+	base64IDMu.Lock()
+	base64IDSeq = 0
+	base64IDMu.Unlock()
+}
+
+type verifBatchTransport struct {
+	name    string
+	batches [][]*parser.Packet
+}
+
+func (t *verifBatchTransport) Name() string { return t.name }
+func (t *verifBatchTransport) Handshake() (*parser.HandshakeResponse, error) {
+	return nil, nil
+}
+func (t *verifBatchTransport) Run() {}
+func (t *verifBatchTransport) Send(packets ...*parser.Packet) {
+	t.batches = append(t.batches, append([]*parser.Packet(nil), packets...))
+}
+func (t *verifBatchTransport) Discard() {}
+func (t *verifBatchTransport) Close()   {}
+
+// VerifClientBatches runs the client's batching routine (the code behind
+// ClientSocket.Send) against a recording transport and returns the batches it
+// handed to the transport.
+func VerifClientBatches(transportName string, maxPayload int64, packets []*parser.Packet) [][]*parser.Packet {
+	t := &verifBatchTransport{name: transportName}
+	s := &clientSocket{
+		transport:  t,
+		maxPayload: maxPayload,
+		debug:      NewNoopDebugger(),
+	}
+	s.Send(packets...)
+	return t.batches
+}
